@@ -338,10 +338,26 @@ func init() {
 			return
 		}
 		n := len(b.respBody)
-		kind := c.Free("fault", 6)
+		kind := c.Free("fault", 8)
 		desc := ""
 		mut := func(r *world.Reply) {}
 		switch kind {
+		case 7: // body ends after every proper prefix, but the status (HTTP trailers) still says what it says
+			if n == 0 || p.Target != wire.GRPC {
+				c.Skip()
+				return
+			}
+			k := c.Free("cut-at", n)
+			for _, o := range frameOffsets(b.respBody) {
+				if k == o {
+					// a cut at a frame boundary is a complete stream with fewer messages, not a
+					// stream that stops in the middle of an envelope or message
+					c.Skip()
+					return
+				}
+			}
+			desc = fmt.Sprintf("body-cut@%d/%d-with-trailers", k, n)
+			mut = func(r *world.Reply) { r.Out.Body = r.Out.Body[:k] }
 		case 0: // handler returns after every proper prefix of the body
 			if n == 0 {
 				c.Skip()
@@ -404,7 +420,15 @@ func init() {
 				c.Skip()
 				return
 			}
-			d := []int64{int64(n + 1), int64(n - 1), int64(2 * n), int64(n + 30)}[c.Free("clmut", 4)]
+			ds := []int64{int64(n + 1), int64(n - 1), int64(2 * n), int64(n + 30)}
+			if !b.respIsEnv {
+				// a flat body: every under-statement (the declared length may end the body
+				// exactly at a field boundary, where the remainder still decodes)
+				for k := 0; k < n-1; k++ {
+					ds = append(ds, int64(k))
+				}
+			}
+			d := ds[c.Free("clmut", len(ds))]
 			desc = fmt.Sprintf("content-length=%d(body %d)", d, n)
 			mut = func(r *world.Reply) { r.HasCL, r.ContentLength = true, d }
 		case 5: // missing terminal disposition
@@ -420,7 +444,10 @@ func init() {
 				c.Skip()
 				return
 			}
-		case 6: // end frame duplicated / data after end
+		case 6: // end frame duplicated / data after end (dropped from the alphabet: nothing after the end is the transcoder's to judge)
+			c.Skip()
+			return
+		case 99:
 			if p.Target != wire.GRPCWeb && p.Target != wire.ConnectStream {
 				c.Skip()
 				return
@@ -439,7 +466,7 @@ func init() {
 				mut = func(r *world.Reply) { r.Out.Body = append(append([]byte(nil), r.Out.Body...), b.respBody[:last]...) }
 			}
 		}
-		c.Attr("fault", []string{"early-return", "flag", "length", "bitflip", "content-length", "missing-end", "after-end"}[kind])
+		c.Attr("fault", []string{"early-return", "flag", "length", "bitflip", "content-length", "missing-end", "after-end", "cut-keep-status"}[kind])
 		c.Attr("~detail", desc)
 		var id ideal
 		v := p.run(runOpts{Responder: p.strictResponder(nil), Reply: func(r *world.Reply) {
